@@ -129,14 +129,16 @@ def build_core(flavour="asan", transport="nompi", extra=()):
     return objs
 
 
-def _gc_builds(keep=24):
-    """Keep the build cache bounded (disk is limited)."""
+def _gc_builds(keep=80, min_age_s=3 * 3600):
+    """Keep the build cache bounded (disk is limited) without touching anything a concurrent check may still be running."""
     try:
-        ds = [os.path.join(BUILD, d) for d in os.listdir(BUILD)]
+        now = time.time()
+        ds = [os.path.join(BUILD, d) for d in os.listdir(BUILD) if d.startswith(("core-", "bin-"))]
         ds = [d for d in ds if os.path.isdir(d)]
         ds.sort(key=lambda d: os.path.getmtime(d))
         for d in ds[:-keep]:
-            shutil.rmtree(d, ignore_errors=True)
+            if now - os.path.getmtime(d) > min_age_s:
+                shutil.rmtree(d, ignore_errors=True)
     except OSError:
         pass
 
